@@ -116,5 +116,24 @@ pub fn check(cx: &Cx, rep: &mut Report) {
             }
         }
     }
+    // R3': every graceful termination cause (accepted stop, last strong handle dropped, attached stream exhausted)
+    // is followed, by the end of the scenario, by exactly one stopped() of the final incarnation
+    let settled = ix.phase("settled").unwrap_or(u64::MAX);
+    for af in fx.values() {
+        let Some(decl) = af.decl else { continue };
+        if af.failed() || af.is_child || decl.k != 0 || af.incs.is_empty() {
+            continue;
+        }
+        let started_ok = af.incs.iter().all(|i| !matches!(i.s_out, Some((_, false)) | None));
+        let cause = af.stops.iter().filter(|s| s.accepted).map(|s| s.r).min().into_iter().chain(af.stream_end).chain(af.zero_at).min();
+        if let (Some(c), true) = (cause, started_ok) {
+            rep.premise("C03.R3.cause_leads_to_stopped");
+            let ok = matches!(af.t_final(), Some((_, Some(t_out))) if t_out < settled) && af.task_end.is_some();
+            if !ok {
+                let kind = if af.stops.iter().any(|s| s.accepted) { "stop" } else if af.stream_end.is_some() { "stream_end" } else { "last_drop" };
+                rep.fail(P, "R3", format!("no_stopped_after_cause;cause={kind};stream={}", decl.entry.stream()), format!("actor tag {} had a graceful termination cause ({kind}) at #{c} but stopped() has not completed by the end of the scenario (stopped={:?}, task_end={:?})", af.tag, af.t_final(), af.task_end), vec![c]);
+            }
+        }
+    }
     rep.nontrivial = nontrivial;
 }
